@@ -35,11 +35,12 @@ Definition put (st : state) (id : Z) (data : list Z) (ttl : Z) : state :=
   let sanitized := Z.max effective store_minimum_ttl in
   with_recs st (set id {| r_data := data; r_exp := now st + sanitized * ns |} (recs st)).
 
-(* ChunkStore::get_record: refuses AND erases an expired record *)
+(* ChunkStore::get_record: refuses an expired record; the record itself stays until sweep_expired takes it (since the
+   fix: commit -- it used to be erased here, without wiping its file and without the node ever reporting the expiry) *)
 Definition get_record (st : state) (id : Z) : option rec * state :=
   match get id (recs st) with
   | None => (None, st)
-  | Some r => if live (now st) r then (Some r, st) else (None, with_recs st (del id (recs st)))
+  | Some r => if live (now st) r then (Some r, st) else (None, st)
   end.
 
 (* ChunkStore::sweep_expired: returns the removed ids *)
